@@ -87,7 +87,7 @@ def gen_dict(rng, name, style):
         letters = rng.choice(["ab", "abc", "abc"])
         syl = gen_syllables(rng, letters, rng.randint(3, 8))
     rows = []
-    texts = [gen_text(rng) for _ in range(rng.randint(3, 10))]
+    texts = [gen_text(rng) for _ in range(rng.choice([2, 3, 3, 5, 8, 10]))]      # small pools: the same text under many codes
     nrows = rng.randint(6, 40) if style != "wide" else rng.randint(len(syl), 3 * len(syl))
     maxlen = {"script": 6, "table": 3, "wide": 1}[style]
     seen = set()
@@ -105,7 +105,7 @@ def gen_dict(rng, name, style):
             code[:3] = heavy
         if rows and rng.random() < .25:      # repeated code
             code = list(rng.choice(rows)[1])
-        text = rng.choice(texts) if rng.random() < .6 else gen_text(rng)
+        text = rng.choice(texts) if rng.random() < (.9 if len(texts) <= 3 else .6) else gen_text(rng)
         w = rng.choice(WEIGHTS)
         if (text, tuple(code)) in seen:
             continue                        # an exact duplicate row (text, code) is C06's business
@@ -139,6 +139,8 @@ def schema_yaml(sid, d, v):
     if v["kind"] == "table":
         lines.append("  enable_sentence: %s" % ("true" if v["sentence"] else "false"))
         lines.append("  enable_encoder: false")
+    if v.get("max_homographs"):
+        lines.append("  max_homographs: %d" % v["max_homographs"])
     if "wordcompl" in v:
         lines.append("  enable_word_completion: %s" % ("true" if v["wordcompl"] else "false"))
     if v.get("strict"):
@@ -167,6 +169,7 @@ TABLE_VARIANTS = [
     dict(kind="table", completion=True, sentence=False, delims="'"),
     dict(kind="table", completion=False, sentence=True, delims=" '"),
     dict(kind="table", completion=True, sentence=True, delims="'"),
+    dict(kind="table", completion=False, sentence=True, delims="'", max_homographs=2),
 ]
 
 
@@ -381,7 +384,7 @@ def parse_graph(line):
 
 def make_plan(ctx, rng):
     quick = ctx.tier == "quick"
-    nscript, ntable, nwide = (5, 3, 1) if quick else (16, 8, 3)
+    nscript, ntable, nwide = (8, 5, 2) if quick else (16, 8, 3)
     dicts = []
     for i in range(nscript):
         dicts.append(gen_dict(rng, "ds%d" % i, "script"))
@@ -453,7 +456,7 @@ def model_schema_lines(blk, v):
     if o["kind"] == "script":
         L.append("O script %s %s" % (o["wordcompl"], o["maxhomophones"]))
     else:
-        L.append("O table %s %s %s" % (o["completion"], o["sentence"], o["delims"]))
+        L.append("O table %s %s %s %s" % (o["completion"], o["sentence"], o["delims"], o["maxhomographs"]))
     return L
 
 
